@@ -191,7 +191,7 @@ def main(argv):
     nsmall = ck.budget(120, 1500)
     for _ in range(nsmall):
         plan.append((rng.randint(1, 40), rng.choice(['events', 'updates', 'periodic', 'two-initial', 'random', 'random', 'random'])))
-    big = ck.budget(3000, 30000)
+    big = ck.budget(3000, 15000)
     for pat in (['events', 'periodic', 'random'] if not ck.thorough() else
                 ['events', 'periodic', 'random', 'updates', 'two-initial', 'random', 'periodic', 'random', 'events', 'periodic']):
         plan.append((big if pat != 'updates' else big // 10, pat))
@@ -235,6 +235,8 @@ def main(argv):
                                            'expected': 'retained - undelivered <= small constant'})
             if '+handlers-for-one-type' in m:
                 continue          # only every other event is observed: judged by the oracle, not fed to the bookkeeping model
+            if n > 4000 and mode != modes[0]:
+                continue          # very long streams: one feed mode per stream goes to the model (term size), all are judged by the oracle
             alt = m.startswith('pushb')
             out = (res['retained'] if alt else res['positions'], res['final'], res['ok'])
             terms.append(coq((alt, kinds, out)))
